@@ -317,9 +317,18 @@ class Context:
             raise Infeasible()
         self.pc.append(cond)
 
+    def _feasible(self, terms):
+        """sat / unsat / unknown of a path condition.  The first attempt is short; an `unknown` (usually a wall-clock
+        time-out on a loaded machine) is retried once with five times the budget before the path is assumed feasible --
+        assuming an infeasible path feasible is sound for the proof but sends the execution into states the code can
+        never be in (spurious IndexError in a contract's setup, operations outside the modelled fragment)."""
+        v, _, _ = solve(terms, self.feas_timeout, cli=False)
+        if v == "unknown":
+            v, _, _ = solve(terms, 5 * self.feas_timeout, cli=False)
+        return v
+
     def check_feasible(self):
-        v, _, _ = solve(self.pc, self.feas_timeout, cli=False)
-        if v == "unsat":
+        if self._feasible(self.pc) == "unsat":
             raise Infeasible()
 
     # -- branching ----------------------------------------------------------
@@ -337,8 +346,8 @@ class Context:
             self.trail.append([choice, False])  # alternatives handled by owner
             self.pc.append(term if choice else z3.Not(term))
             return choice
-        vt, _, _ = solve(self.pc + [term], self.feas_timeout, cli=False)
-        vf, _, _ = solve(self.pc + [z3.Not(term)], self.feas_timeout, cli=False)
+        vt = self._feasible(self.pc + [term])
+        vf = self._feasible(self.pc + [z3.Not(term)])
         can_t = vt != "unsat"
         can_f = vf != "unsat"
         if not can_t and not can_f:
